@@ -8,6 +8,8 @@ pub const NO_SUCH_KEY: usize = 1000;
 
 #[derive(Clone, Debug)]
 pub struct GenCfg {
+    /// a pair of nodes most edge operations concentrate on (long lists, many parallel edges)
+    pub hub: Option<(usize, usize)>,
     pub provs: Vec<Prov>,
     /// weights: connect, try_connect, disconnect, isolate, query, snapshot, search
     pub w: [u32; 7],
@@ -16,6 +18,7 @@ pub struct GenCfg {
 impl GenCfg {
     pub fn mutations_and_queries() -> Self {
         GenCfg {
+            hub: None,
             provs: crate::model::ALL_PROV.to_vec(),
             w: [30, 15, 22, 5, 20, 5, 3],
         }
@@ -53,8 +56,17 @@ impl Model {
     }
 }
 
-fn pick_pair(rng: &mut Rng, m: &Model) -> (usize, usize) {
+fn pick_pair(rng: &mut Rng, m: &Model, cfg: &GenCfg) -> (usize, usize) {
     let n = m.n;
+    if let Some((a, b)) = cfg.hub {
+        if rng.chance(3, 4) {
+            return match rng.below(6) {
+                0 => (b, a),
+                1 => (a, a),
+                _ => (a, b),
+            };
+        }
+    }
     let r = rng.below(100);
     if r < 15 {
         let u = rng.below(n);
@@ -105,12 +117,12 @@ pub fn gen_op(rng: &mut Rng, m: &Model, next_edge: &mut u64, cfg: &GenCfg) -> Op
     let h = *rng.pick(&cfg.provs);
     match rng.weighted(&cfg.w) {
         0 => {
-            let (u, v) = pick_pair(rng, m);
+            let (u, v) = pick_pair(rng, m, cfg);
             *next_edge += 1;
             Op::Connect { u, v, e: *next_edge, h }
         }
         1 => {
-            let (u, v) = pick_pair(rng, m);
+            let (u, v) = pick_pair(rng, m, cfg);
             *next_edge += 1;
             Op::TryConnect { u, v, e: *next_edge, h }
         }
@@ -166,7 +178,7 @@ pub fn gen_initial(rng: &mut Rng, m: &mut Model, next_edge: &mut u64, max: usize
     let k = rng.below(max + 1);
     let mut out = Vec::new();
     for _ in 0..k {
-        let (u, v) = pick_pair(rng, m);
+        let (u, v) = pick_pair(rng, m, &GenCfg::mutations_and_queries());
         *next_edge += 1;
         out.push((u, v, *next_edge));
         m.edges.push(MEdge {
